@@ -9,7 +9,7 @@ func init() {
 				Quick: map[string]int{"k": 2, "maporder": 1}, Thorough: map[string]int{"k": 1, "maporder": 2},
 				Reach: []string{"two runs compared"}, Functions: pipelineFns},
 			{Name: "batch-interleavings", Pkg: ".", Files: []string{"root/fed.go", "root/c01.go", "root/c08.go"}, Entry: "VerifBatch", Mode: "all", Race: true,
-				Quick: map[string]int{"rmax": 2, "classes": 14}, Thorough: map[string]int{"rmax": 2, "classes": 14},
+				Quick: map[string]int{"rmax": 2, "classes": 15}, Thorough: map[string]int{"rmax": 2, "classes": 15},
 				Reach: []string{"batch of several"}, Functions: []string{"(*Gateway).queryHandler", "(*Gateway).queryHandler$1", "(*Gateway).queryHandler$2", "common.AsyncMapReduce[int,*Result,Results]"}},
 			{Name: "root-merge-interleavings", Pkg: "executor", Files: []string{"executor/c12.go"}, Entry: "VerifRootMergeOrder", Mode: "all", Race: true,
 				Quick: map[string]int{"extra": 1}, Thorough: map[string]int{"extra": 1},
